@@ -923,7 +923,7 @@ func (e *asEngine) Exec(line string) (obs string, viol string) {
 
 // eventMonitors look at the events of the step just executed (before they are printed).
 func (e *asEngine) eventMonitors() {
-	for _, ev := range e.events {
+	for evIdx, ev := range e.events {
 		p := strings.Split(ev, ":")
 		e.evHist[p[0]]++
 		if p[0] == "decide" && len(p) == 4 {
@@ -966,7 +966,18 @@ func (e *asEngine) eventMonitors() {
 			}
 		case "restarted":
 			cid, _ := strconv.Atoi(p[1])
-			e.pendingLaunch[cid] = true
+			// the new incarnation's OnLaunch is due: it may already have been seen later in this very step
+			// (repaired code: handled at the end of the restart) or must be seen in a later one
+			launched := false
+			for _, later := range e.events[evIdx+1:] {
+				q := strings.Split(later, ":")
+				if len(q) == 4 && q[0] == "seen" && q[1] == p[1] && q[3] == "0" {
+					launched = true
+				}
+			}
+			if !launched {
+				e.pendingLaunch[cid] = true
+			}
 		}
 	}
 }
